@@ -206,18 +206,18 @@ var _ *pb.SharedGroupProposal
 //@ at call Message).Marshal
 //@ set enc = $ret0
 //@ set encOK = ite(isnil($ret1), 1, 0)
-//@ set haveClient = 0
 //@ set delivered = 0
 //@ set encFail = encFail + ite(isnil($ret1), 0, 1)
 //@ set snaps = snaps + ite(isnil($ret1) && m.Type == 7, 1, 0)
 //@ end
 //@ at call RaftTransport).getNodeRaftTransportClient
-//@ requires [C05 client-of-the-addressee] $arg1 == m.To && encOK == 1
+//@ requires [C05 client-of-the-addressee] $arg1 == m.To
 //@ set to = $arg1
 //@ set haveClient = ite(isnil($ret1), 1, 0)
+//@ set delivered = 0
 //@ end
 //@ at call RaftTransportClient.Receive
-//@ requires [C05 message-goes-to-its-addressee-under-this-groups-id] haveClient == 1 && to == m.To && $arg2 != nil && $arg2.Message == enc && uuidOfBytes($arg2.GroupId) == group.id && delivered == 0
+//@ requires [C05 message-goes-to-its-addressee-under-this-groups-id] haveClient == 1 && encOK == 1 && to == m.To && $arg2 != nil && $arg2.Message == enc && uuidOfBytes($arg2.GroupId) == group.id && delivered == 0
 //@ set delivered = ite(isnil($ret1), 1, 0)
 //@ set settled = settled + ite(isnil($ret1), 1, 0)
 //@ end
